@@ -11,7 +11,7 @@
   its own property and no span's user ctxt props use `id` or an id key (the macro call sites cannot).
 
   OBLIGATIONS (audited by `check` with `#print axioms`):
-    sequential_view, revert_on_end, revert_on_end_is_exit_restores, thread_independent, carried_frame_is_transparent, trace_tree,
+    sequential_view, revert_on_end, revert_on_panic, revert_on_end_is_exit_restores, thread_independent, carried_frame_is_transparent, trace_tree,
     driver_trace_tree, one_trace, one_traceL, one_trace_root, parent_is_enclosing, ids_resolveL, span_idsL,
     ids_distinct, rng_zero_absent  (+ EmitModel.Span.runT_eq_spec, runL_eq_spec, spec_eq_ref, specL_eq_refL, current_push)
 -/
@@ -52,6 +52,22 @@ theorem revert_on_end_is_exit_restores (ts : List Tree) (t c : Nat) (s : St IdVa
   rw [exec_evsL] at hr
   obtain ⟨h1, _, _, h4⟩ := C03.exit_restores s g hi _ _ g' hr hst
   exact ⟨exec_evsL ts t c s n, g', hr, hst, h1, h4⟩
+
+/-- **revert_on_panic.** A panic that unwinds out of span bodies (any depth, any mix of sync/async paths and
+    carried frames) and is caught by an enclosing `catch_unwind` leaves no trace either: what follows the catch
+    point runs in exactly the ambient the catch point itself had (`specL amb rest` — the same `amb`), every
+    thread sees in every context what it saw before, and — `revert_on_end_is_exit_restores` holds for trees
+    with panics too — the machine effects are still a balanced, well-nested C03 block: each unwound span did
+    its completion read and its `exit` (the `EnterGuard` drop). -/
+theorem revert_on_panic (body rest : List Tree) (t c : Nat) (s : St IdVal) (n : Nat) :
+    (runL t c (.catch_ body :: rest) s n).1 =
+      specL ((s.active t c).getD []) body ++ specL ((s.active t c).getD []) rest ∧
+    (∀ t' c', (runL t c (.catch_ body :: rest) s n).2.1.active t' c' = s.active t' c') ∧
+    (∀ id en rt rs user children, Span.panicsL children = true →
+      ∀ t' c', (runT t c (.span id en rt rs user children) s n).2.1.active t' c' = s.active t' c') := by
+  refine ⟨?_, (runL_eq_spec _ t c s n).2.active, fun id en rt rs user children _ => (runT_eq_spec _ t c s n).2.active⟩
+  rw [(runL_eq_spec _ t c s n).1]
+  simp [specL, spec, Tree.panics]
 
 /-- non-vacuity of the hypotheses: the pristine machine with the empty bookkeeping -/
 example : Inv (St.init IdVal true) (C03.G0 IdVal) ∧ FreshFrom (C03.G0 IdVal) 0 :=
@@ -99,6 +115,8 @@ theorem one_trace (tree : Tree) (tr sp pa : Option Nat) (τ : Nat) (h : tr = som
       · exact one_traceL children _ _ _ τ h' r hr
       · simp [hr, h']
   | group t children => simp only [ref]; exact one_traceL children tr sp pa τ h
+  | panic => intro r hr; simp [ref] at hr
+  | catch_ children => simp only [ref]; exact one_traceL children tr sp pa τ h
 theorem one_traceL (ts : List Tree) (tr sp pa : Option Nat) (τ : Nat) (h : tr = some τ) :
     ∀ r ∈ refL tr sp pa ts, r.trace = some τ := by
   cases ts with
@@ -108,7 +126,9 @@ theorem one_traceL (ts : List Tree) (tr sp pa : Option Nat) (τ : Nat) (h : tr =
     simp only [refL, List.mem_append] at hr
     rcases hr with hr | hr
     · exact one_trace x tr sp pa τ h r hr
-    · exact one_traceL xs tr sp pa τ h r hr
+    · split at hr
+      · simp at hr
+      · exact one_traceL xs tr sp pa τ h r hr
 end
 
 /-- a root span starts the trace: no incoming trace id, a good reading `τ` -/
@@ -129,10 +149,11 @@ mutual
 def sids : Tree → List (Option Nat)
   | .span _ enabled _ rs _ ch => if enabled then sidsL ch ++ [rs] else sidsL ch
   | .group _ ch => sidsL ch
+  | .catch_ ch => sidsL ch
   | _ => []
 def sidsL : List Tree → List (Option Nat)
   | [] => []
-  | x :: xs => sids x ++ sidsL xs
+  | x :: xs => sids x ++ (if x.panics then [] else sidsL xs)
 end
 
 /-- a reading the random source is supposed to give: present, non-zero, 64 bit -/
@@ -166,6 +187,10 @@ theorem span_ids (tree : Tree) (tr sp pa : Option Nat) (hg : ∀ r ∈ sids tree
   | group t children =>
     simp only [sids] at hg ⊢
     simp only [ref]; exact span_idsL children tr sp pa hg
+  | panic => simp [ref, sids]
+  | catch_ children =>
+    simp only [sids] at hg ⊢
+    simp only [ref]; exact span_idsL children tr sp pa hg
 theorem span_idsL (ts : List Tree) (tr sp pa : Option Nat) (hg : ∀ r ∈ sidsL ts, Good r) :
     ((refL tr sp pa ts).filter isSpanRec).map (·.span) = sidsL ts := by
   cases ts with
@@ -173,8 +198,12 @@ theorem span_idsL (ts : List Tree) (tr sp pa : Option Nat) (hg : ∀ r ∈ sidsL
   | cons x xs =>
     simp only [sidsL] at hg ⊢
     simp only [refL, List.filter_append, List.map_append]
-    rw [span_ids x tr sp pa (fun r hr => hg r (by simp [hr])),
-        span_idsL xs tr sp pa (fun r hr => hg r (by simp [hr]))]
+    rw [span_ids x tr sp pa (fun r hr => hg r (by simp [hr]))]
+    cases hp : x.panics with
+    | true => simp
+    | false =>
+      simp only [hp, Bool.false_eq_true, if_false] at hg ⊢
+      rw [span_idsL xs tr sp pa (fun r hr => hg r (by simp [hr]))]
 end
 
 /-- **ids_distinct.** If the random source gives the enabled spans good readings (present, non-zero) that do not
@@ -251,6 +280,10 @@ theorem ids_resolve (tree : Tree) (tr sp pa : Option Nat) (hg : ∀ r ∈ sids t
   | group t children =>
     simp only [sids] at hg ⊢
     simp only [ref]; exact ids_resolveL children tr sp pa hg
+  | panic => intro r hr; simp [ref] at hr
+  | catch_ children =>
+    simp only [sids] at hg ⊢
+    simp only [ref]; exact ids_resolveL children tr sp pa hg
 theorem ids_resolveL (ts : List Tree) (tr sp pa : Option Nat) (hg : ∀ r ∈ sidsL ts, Good r) :
     ∀ r ∈ refL tr sp pa ts, (r.span = sp ∨ r.span ∈ sidsL ts) ∧
       (isSpanRec r = true → r.parent = sp.or pa ∨ r.parent ∈ sidsL ts) := by
@@ -263,8 +296,12 @@ theorem ids_resolveL (ts : List Tree) (tr sp pa : Option Nat) (hg : ∀ r ∈ si
     rcases hr with hr | hr
     · obtain ⟨h1, h2⟩ := ids_resolve x tr sp pa (fun r hr => hg r (by simp [hr])) r hr
       exact ⟨h1.imp_right (fun h => List.mem_append_left _ h), fun hs => (h2 hs).imp_right (fun h => List.mem_append_left _ h)⟩
-    · obtain ⟨h1, h2⟩ := ids_resolveL xs tr sp pa (fun r hr => hg r (by simp [hr])) r hr
-      exact ⟨h1.imp_right (fun h => List.mem_append_right _ h), fun hs => (h2 hs).imp_right (fun h => List.mem_append_right _ h)⟩
+    · cases hp : x.panics with
+      | true => simp [hp] at hr
+      | false =>
+        simp only [hp, Bool.false_eq_true, if_false] at hg hr ⊢
+        obtain ⟨h1, h2⟩ := ids_resolveL xs tr sp pa (fun r hr => hg r (by simp [hr])) r hr
+        exact ⟨h1.imp_right (fun h => List.mem_append_right _ h), fun hs => (h2 hs).imp_right (fun h => List.mem_append_right _ h)⟩
 end
 
 /-- **driver_trace_tree.** What the driver computes for a case, end to end: the incoming props are pushed by an
@@ -306,12 +343,28 @@ def demoIncoming : List (String × IdVal) :=
 
 example : CleanL demo := by simp [demo, CleanL, Clean, NoKeys, idKeys]
 example : (∀ r ∈ sidsL demo, Good r) ∧ (sidsL demo).Nodup := by
-  simp [demo, sidsL, sids, Good]
+  simp [demo, sidsL, sids, Good, Tree.panics, Span.panicsL]
 example :
     (runL 0 0 demo (step (step (St.init IdVal true) (.open 0 0 0 Kind.push demoIncoming)) (.enter 0 0 0)) 1).1 =
       [⟨"e", some 2, some 42, some 9, some 11⟩, ⟨"c", some 5, some 42, some 11, some 13⟩,
        ⟨"s", some 4, some 42, some 11, some 13⟩, ⟨"e", some 6, some 42, some 9, some 11⟩,
        ⟨"s", some 7, some 42, some 11, some 14⟩, ⟨"s", some 1, some 42, some 9, some 11⟩] := by
+  decide
+
+/-- a span whose body panics below a second span; the panic is caught; then an event and a new root span:
+    both unwound spans complete with their own ids, the event carries no ids, the new span has no parent -/
+def demoPanic : List Tree :=
+  [.catch_ [.span 1 true (some 7) (some 11) [] [.span 2 true none (some 12) [] [.event 3 [], .panic, .event 4 []],
+                                               .event 5 []]],
+   .event 6 [], .span 7 true (some 8) (some 13) [] []]
+
+example : Span.panicsL [.span 1 true (some 7) (some 11) [] [.span 2 true none (some 12) [] [.event 3 [], .panic]]] = true := by
+  decide
+example :
+    (runL 0 0 demoPanic (St.init IdVal true) 0).1 =
+      [⟨"e", some 3, some 7, some 11, some 12⟩, ⟨"s", some 2, some 7, some 11, some 12⟩,
+       ⟨"s", some 1, some 7, none, some 11⟩, ⟨"e", some 6, none, none, none⟩,
+       ⟨"s", some 7, some 8, none, some 13⟩] := by
   decide
 
 end EmitModel.C04
